@@ -5,7 +5,7 @@ V=${1:-/tmp/seedtest}
 cd "$(dirname "$0")/.."
 rc=0
 for i in $(seq -w 1 30); do
-  ( /venv/bin/python tools/obs.py C$i | cut -f1-3 > /tmp/rd.a.$i; /venv/bin/python tools/obs.py C$i "$V" | cut -f1-3 > /tmp/rd.b.$i ) &
+  ( /venv/bin/python tools/obs.py C$i | cut -f1-3 | sort > /tmp/rd.a.$i; /venv/bin/python tools/obs.py C$i "$V" | cut -f1-3 | sort > /tmp/rd.b.$i ) &
 done
 wait
 for i in $(seq -w 1 30); do
